@@ -104,8 +104,61 @@ def random_score_desc(rng, nparts=None, **kw):
 
 
 # ---------------------------------------------------------------------- construction
+def warm_readers(p, full=False):
+    """read-only views of a part, called in the middle of a construction history ("warm" builds).  None of them may
+    change what any later reader returns (C20) and every later reader must describe the part as it is THEN (C02, C05,
+    C10, ...): a memo that one of these leaves behind and that a later edit does not invalidate is what warm builds
+    are there to expose.  Exceptions are swallowed: a half-built part may legitimately be refused."""
+    import numpy as np
+
+    def tryit(f):
+        try:
+            return f()
+        except Exception:
+            return None
+
+    ts = [tp.t for tp in p._points][:6] or [0]
+    xs = np.array(ts, dtype=float)
+    for name in ("beat_map", "quarter_map", "quarter_duration_map", "time_signature_map", "key_signature_map",
+                 "measure_map", "measure_number_map", "metrical_position_map", "clef_map"):
+        m = tryit(lambda: getattr(p, name))
+        if m is not None:
+            tryit(lambda: m(xs))
+            tryit(lambda: m(ts[0]))
+    for name in ("inv_beat_map", "inv_quarter_map"):
+        m = tryit(lambda: getattr(p, name))
+        if m is not None:
+            tryit(lambda: m(np.array([0.0, 1.0])))
+    tryit(lambda: p.number_of_staves)
+    tryit(lambda: p.notes_tied)
+    tryit(lambda: [n.midi_pitch for n in p.notes])
+    tryit(lambda: [n.symbolic_duration for n in p.iter_all(__import__("partitura").score.GenericNote, include_subclasses=True)])
+    tryit(lambda: [n.duration_tied for n in p.notes])
+    tryit(lambda: p.note_array())
+    tryit(lambda: p.rest_array())
+    if full:
+        tryit(lambda: p.note_array(include_pitch_spelling=True, include_key_signature=True, include_time_signature=True,
+                                   include_metrical_position=True, include_grace_notes=True, include_staff=True,
+                                   include_divs_per_quarter=True))
+        tryit(lambda: p.pretty())
+        tryit(lambda: [str(o) for o in p.iter_all()])
+
+
 def build_part(d):
+    """`d["warm"]` (optional int bit mask) interleaves `warm_readers` with the construction steps: bit 0 after the
+    signatures, 1 after the notes (before ties / grace links), 2 after the ties, 3 after the extras, 4 after the
+    measures; bit 5 makes the readers "full" (pretty / str / every note-array column); bit 6 re-adds the notes, every
+    other one with a wrong end, reads, removes them and adds them again where they belong (an edit history); bit 7
+    sets the ties last of all, after a read (no Part.add / Part.remove follows them).  The finished
+    part must be indistinguishable from the one built without `warm`."""
     import partitura.score as S
+
+    warm = int(d.get("warm") or 0)
+    full = bool(warm & 32)
+
+    def W(bit):
+        if warm & (1 << bit):
+            warm_readers(p, full)
 
     p = S.Part(d["id"], part_name=d.get("name", d["id"]), quarter_duration=d["divs"])
     for t, q in d.get("qd", []):
@@ -116,6 +169,7 @@ def build_part(d):
         p.add(S.KeySignature(f, m), t)
     for t, staff, sign, line, oc in d.get("clefs", []):
         p.add(S.Clef(staff, sign, line, oc), t)
+    W(0)
     byid = {}
     for n in d.get("notes", []):
         kw = dict(id=n["id"], voice=n.get("voice"), staff=n.get("staff"))
@@ -132,11 +186,29 @@ def build_part(d):
             o = S.Note(step=n["step"], octave=n["oct"], alter=n.get("alter"), **kw)
         p.add(o, n["t"], n["t"] + n["dur"])
         byid[n["id"]] = o
-    for n in d.get("notes", []):
-        if n.get("tie"):
-            a, b = byid[n["id"]], byid[n["tie"]]
-            a.tie_next = b
-            b.tie_prev = a
+    if warm & 64:
+        # every non-grace note (all of them, re-added in the original order, so that the order inside each
+        # time point's per-class list is that of the plain build)
+        churn = [n for n in d.get("notes", []) if n["kind"] != "grace"]
+        for i, n in enumerate(churn):
+            p.remove(byid[n["id"]])
+            p.add(byid[n["id"]], n["t"], n["t"] + n["dur"] + (1 + i % 3 if i % 2 == 0 else 0))
+        warm_readers(p, full)
+        for n in churn:
+            p.remove(byid[n["id"]])
+        for n in churn:
+            p.add(byid[n["id"]], n["t"], n["t"] + n["dur"])
+    W(1)
+
+    def set_ties():
+        for n in d.get("notes", []):
+            if n.get("tie"):
+                a, b = byid[n["id"]], byid[n["tie"]]
+                a.tie_next = b
+                b.tie_prev = a
+
+    if not warm & 128:
+        set_ties()
     # grace notes: chain to the following main note of the same voice at the same time
     for n in d.get("notes", []):
         if n["kind"] == "grace":
@@ -145,15 +217,23 @@ def build_part(d):
                 if m["kind"] == "note" and m["t"] == n["t"] and m.get("voice") == n.get("voice"):
                     g.grace_next = byid[m["id"]]
                     break
+    W(2)
     for cls, st, en, kw in d.get("extras", []):
         o = getattr(S, cls)(**kw)
         p.add(o, st, en)
+    W(3)
     ms = d.get("measures", "auto")
     if ms == "auto":
         S.add_measures(p)
     elif ms:
         for st, en, num in ms:
             p.add(S.Measure(number=num), st, en)
+    W(4)
+    if warm & 128:
+        # ties are plain attribute assignments on notes that are already in the timeline: made as the very LAST step
+        # (after a read), nothing that goes through Part.add / Part.remove follows them
+        warm_readers(p, full)
+        set_ties()
     return p
 
 
@@ -184,7 +264,9 @@ def part_objects(part):
     seen, out = set(), []
     for tp in part._points:
         for reg in (tp.starting_objects, tp.ending_objects):
-            for cls, objs in reg.items():
+            # classes in name order: the key order of the per-point dictionaries is not observable (iteration goes
+            # through the subclass tree) and depends on which classes were merely looked up before
+            for cls, objs in sorted(reg.items(), key=lambda kv: kv[0].__name__):
                 for o in objs:
                     if id(o) not in seen:
                         seen.add(id(o))
@@ -224,6 +306,19 @@ def _canon(v, index, depth=0):
 
 # memoisation caches of derived values are not observable state of the argument
 SKIP_PART_ATTRS = {"_points", "_quarter_map", "_number_of_staves"}
+# private attributes that ARE state of a part / of a timed object in the pinned source; any other underscore
+# attribute is a lazily created memo (not observable state: what it changes, if anything, shows in the results of
+# the readers, which the checks compare), so that a harmless memoisation does not raise an alarm
+STATE_PRIVATE_PART = {"_quarter_times", "_quarter_durations", "_use_musical_beat"}
+STATE_PRIVATE_OBJ = {"_sym_dur", "_start_note", "_end_note", "_ref_attrs"}
+
+
+def _part_attr_counts(k):
+    return k not in SKIP_PART_ATTRS and (not k.startswith("_") or k in STATE_PRIVATE_PART)
+
+
+def _obj_attr_counts(k):
+    return k not in ("start", "end") and (not k.startswith("_") or k in STATE_PRIVATE_OBJ)
 
 
 def fingerprint_part(part, with_ids=False):
@@ -233,15 +328,15 @@ def fingerprint_part(part, with_ids=False):
     for tp in part._points:
         points.append([
             tp.t, _prim(tp.quarter), None if tp.prev is None else tp.prev.t, None if tp.next is None else tp.next.t,
-            [[c.__name__, [index[id(o)] for o in os_]] for c, os_ in tp.starting_objects.items() if len(os_)],
-            [[c.__name__, [index[id(o)] for o in os_]] for c, os_ in tp.ending_objects.items() if len(os_)],
+            sorted([c.__name__, [index[id(o)] for o in os_]] for c, os_ in tp.starting_objects.items() if len(os_)),
+            sorted([c.__name__, [index[id(o)] for o in os_]] for c, os_ in tp.ending_objects.items() if len(os_)),
         ])
     ol = []
     for o in objs:
-        attrs = sorted(([k, _canon(v, index)] for k, v in vars(o).items() if k not in ("start", "end")), key=lambda kv: kv[0])
+        attrs = sorted(([k, _canon(v, index)] for k, v in vars(o).items() if _obj_attr_counts(k)), key=lambda kv: kv[0])
         ol.append([type(o).__name__, None if o.start is None else o.start.t, None if o.end is None else o.end.t, attrs])
     pattrs = sorted(([k, _canon(v, index)] for k, v in vars(part).items()
-                     if k not in SKIP_PART_ATTRS and not callable(v)), key=lambda kv: kv[0])
+                     if _part_attr_counts(k) and not callable(v)), key=lambda kv: kv[0])
     fp = {"points": points, "objects": ol, "part": pattrs}
     if with_ids:
         fp["ids"] = [id(o) for o in objs] + [id(tp) for tp in part._points]
